@@ -92,6 +92,49 @@ fn lzma_pool(rng: &mut StdRng, p: Props) -> Vec<(Vec<u8>, Option<u64>, String)> 
         v.push((e.payload.clone(), Some(n as u64), format!("literal-only-sized{}", n)));
         v.push((e.payload[..e.payload.len() * 2 / 3].to_vec(), Some(n as u64), format!("literal-only-truncated{}", n)));
     }
+    // streams a NEW decoder must reject because a copy reaches before the start of the output; the
+    // continuation is coded as if zeros had been there, so an object that still holds an old window accepts it
+    for (k, bad) in [Sym::Match { d: 2, n: 4 }, Sym::Short, Sym::Match { d: 3000, n: 9 }].iter().enumerate() {
+        let mut cs = coding::CS::default();
+        let mut probs = coding::Probs::default();
+        let mut enc = crate::kernel::RangeEnc::new();
+        let first = Sym::Lit { b: b'X' };
+        let mut seq: Vec<Sym> = if k == 1 { vec![] } else { vec![first] };
+        for s0 in seq.drain(..) {
+            let d = cs.decisions(&s0, p);
+            coding::encode_decs(&mut enc, &mut probs, &d);
+            cs.apply(&s0);
+        }
+        let d = coding::invalid_decisions(&cs, bad, p);
+        coding::encode_decs(&mut enc, &mut probs, &d);
+        let (n, nst): (usize, usize) = match bad {
+            Sym::Match { d: dd, n } => {
+                cs.rep = [dd - 1, cs.rep[0], cs.rep[1], cs.rep[2]];
+                (*n as usize, coding::match_next(cs.st))
+            }
+            _ => (1, coding::short_next(cs.st)),
+        };
+        for _ in 0..n {
+            cs.out.push(0);
+        }
+        cs.st = nst;
+        for b in [b'a', b'b'] {
+            let s1 = Sym::Lit { b };
+            if cs.valid(&s1) {
+                let d = cs.decisions(&s1, p);
+                coding::encode_decs(&mut enc, &mut probs, &d);
+                cs.apply(&s1);
+            }
+        }
+        let total = cs.out.len() as u64;
+        v.push((enc.finish(), Some(total), format!("copy-before-start{}", k)));
+    }
+    // a long valid stream that fills more than one lap of a 4096-byte window
+    {
+        let prog = random_walk(rng, &WalkCfg { nsyms: 700, props: p, max_dist: 4096, lit_alphabet: 6 });
+        let e = coding::encode_program(&prog, p);
+        v.push((e.payload.clone(), Some(e.out.len() as u64), "valid-long-sized".into()));
+    }
     // literals + short reps / rep0 only: rep distances stay zero, state and length tables do not
     {
         let mut prog = vec![Sym::Lit { b: 5 }];
